@@ -45,7 +45,7 @@ func init() {
 			"(D7) in each handler, a channel that hands replayed events from a forwarding goroutine to the loop that calls the stream's Send is a rendez-vous channel (constant capacity 0) whenever the forwarder signals completion out of band, i.e. calls the cancel function of a context whose Done() the send loop selects on next to that channel and answers by returning: with a buffer the cancel can overtake queued events and the stream ends without its last events; completion signalled in band (sentinel, close) carries no such requirement. " +
 			"(D8) every send on the channel a ListEvents returns hands over an event that exists: the value sent is either freshly built, or tested non-nil, or the result of the call that opened the entry and the send is reachable only through the nil-error side of that call's error (a compound condition whose other side still contains an error case is reported): the list RPCs read a nil event as the end of the listing, so one nil event silently drops the rest of the range. " +
 			"Not decided: that Values() itself is a correct, replica-independent linearisation (go-ipfs-log, trusted at its documented API); that entries which fail to open are skipped without disturbing the order of the others (D8 only excludes that they are emitted as nil events); the interleaving of replayed and live events in the RPC stream (D7 only excludes the loss of queued replayed events at an out-of-band end of stream); behaviour for logs above 12 entries beyond what the size-independent evaluation suggests; concurrent appends during a listing.",
-		Trusted:     []string{"golang.org/x/tools go/packages+go/ssa (v0.29.0)", "go-ipfs-log: Log.Values() is the clock-sorted traversal oldest first, GetEntries() the insertion-ordered map, OrderedMap.Reverse/Slice/Copy as documented", "bytes.Equal, cid.Cid.Bytes injective on distinct entries", "the rule file's finite-domain SSA evaluator (c13.go)"},
+		Trusted:     []string{"golang.org/x/tools go/packages+go/ssa (v0.29.0)", "go-ipfs-log: Log.Values() is the clock-sorted traversal oldest first, GetEntries() the insertion-ordered map, OrderedMap.Reverse/Slice/Copy as documented", "bytes.Equal, cid.Cid.Bytes injective on distinct entries", "slices.IndexFunc/Index/ContainsFunc/Contains: first matching position or -1 (modelled over the abstract entry list, the predicate closure is evaluated per element)", "the rule file's finite-domain SSA evaluator (c13.go)"},
 		Assumptions: []string{"dependencies behave as documented; only module code is analysed", "distinct log entries have distinct hashes", "request byte fields are nil when unset (protobuf decoding)"},
 		Floors:      map[string]int{"D1": 2, "D2": 10, "D3": 66, "D4": 12, "D5": 4, "D6": 2, "D7": 2, "D8": 2},
 		Borrows: []Borrow{
@@ -313,11 +313,11 @@ type c13Scope struct {
 	funcs  []*ssa.Function
 	inSet  map[*ssa.Function]bool
 	depth  map[*ssa.Function]int
-	unique map[*ssa.Function]*ssa.Call
+	unique map[*ssa.Function]ssa.CallInstruction // the only call/go/defer of a helper in the scope
 }
 
 func c13NewScope(root *ssa.Function, depth int) *c13Scope {
-	sc := &c13Scope{root: root, inSet: map[*ssa.Function]bool{}, depth: map[*ssa.Function]int{}, unique: map[*ssa.Function]*ssa.Call{}}
+	sc := &c13Scope{root: root, inSet: map[*ssa.Function]bool{}, depth: map[*ssa.Function]int{}, unique: map[*ssa.Function]ssa.CallInstruction{}}
 	type item struct {
 		fn *ssa.Function
 		d  int
@@ -360,7 +360,7 @@ func c13NewScope(root *ssa.Function, depth int) *c13Scope {
 	for _, fn := range sc.funcs {
 		for _, b := range fn.Blocks {
 			for _, in := range b.Instrs {
-				call, ok := in.(*ssa.Call)
+				call, ok := in.(ssa.CallInstruction)
 				if !ok {
 					continue
 				}
@@ -442,6 +442,9 @@ func (sc *c13Scope) calls(match func(fn *ssa.Function, call *ssa.Call, callee *s
 // Entries, identifiers and errors are tokens; integers and booleans are concrete; library
 // calls are modelled (GetHash, Cid.Bytes, bytes.Equal, error constructors). Anything else
 // stops the evaluation as "unsupported" and the obligation is reported undecided.
+// Module callees and local closures are inlined; local struct variables and struct values
+// (field address, field load/store, struct copy) are modelled field by field; slices.IndexFunc /
+// Index / ContainsFunc / Contains run their predicate closure over the abstract list.
 
 type c13V interface{}
 
@@ -472,6 +475,9 @@ type (
 		I    int
 	}
 	c13Tup []c13V
+	// a struct value (fields by index) and a pointer to a local struct variable
+	c13StructV   struct{ F []c13V }
+	c13StructPtr struct{ Back *[]c13V }
 )
 
 type c13Stop struct{ Kind, Why string } // Kind: panic | unsupported
@@ -512,6 +518,13 @@ func c13Zero(t types.Type) c13V {
 		case b.Info()&types.IsString != 0:
 			return c13Str("")
 		}
+	}
+	if st, ok := t.Underlying().(*types.Struct); ok {
+		f := make([]c13V, st.NumFields())
+		for i := range f {
+			f[i] = c13Zero(st.Field(i).Type())
+		}
+		return c13StructV{F: f}
 	}
 	return c13NilV{}
 }
@@ -624,11 +637,18 @@ blocks:
 			case *ssa.Panic:
 				ip.stop("panic", "explicit panic in %s", fnName(fn))
 			case *ssa.Store:
-				cell, ok := ip.val(vals, x.Addr).(c13Cell)
-				if !ok {
+				switch addr := ip.val(vals, x.Addr).(type) {
+				case c13Cell:
+					(*addr.Back)[addr.I] = ip.val(vals, x.Val)
+				case c13StructPtr:
+					sv, ok := ip.val(vals, x.Val).(c13StructV)
+					if !ok || len(sv.F) != len(*addr.Back) {
+						ip.stop("unsupported", "store of a non-struct value into a struct variable in %s", fnName(fn))
+					}
+					copy(*addr.Back, sv.F)
+				default:
 					ip.stop("unsupported", "store through an unknown address in %s", fnName(fn))
 				}
-				(*cell.Back)[cell.I] = ip.val(vals, x.Val)
 			case *ssa.Call:
 				vals[x] = ip.doCall(vals, x, depth)
 			case ssa.Value:
@@ -659,8 +679,27 @@ func c13BytesEq(a, b c13V) (bool, bool) {
 func (ip *c13Interp) eval(vals map[ssa.Value]c13V, v ssa.Value) c13V {
 	switch x := v.(type) {
 	case *ssa.Alloc:
-		back := []c13V{c13Zero(x.Type().Underlying().(*types.Pointer).Elem())}
+		z := c13Zero(x.Type().Underlying().(*types.Pointer).Elem())
+		if sv, ok := z.(c13StructV); ok {
+			return c13StructPtr{Back: &sv.F}
+		}
+		back := []c13V{z}
 		return c13Cell{Back: &back, I: 0}
+	case *ssa.FieldAddr:
+		sp, ok := ip.val(vals, x.X).(c13StructPtr)
+		if !ok || x.Field >= len(*sp.Back) {
+			ip.stop("unsupported", "field of something that is not a local struct variable")
+		}
+		if _, nested := (*sp.Back)[x.Field].(c13StructV); nested {
+			ip.stop("unsupported", "nested struct field")
+		}
+		return c13Cell{Back: sp.Back, I: x.Field}
+	case *ssa.Field:
+		sv, ok := ip.val(vals, x.X).(c13StructV)
+		if !ok || x.Field >= len(sv.F) {
+			ip.stop("unsupported", "field of something that is not a struct value")
+		}
+		return sv.F[x.Field]
 	case *ssa.BinOp:
 		return ip.binop(x.Op, ip.val(vals, x.X), ip.val(vals, x.Y))
 	case *ssa.UnOp:
@@ -675,8 +714,11 @@ func (ip *c13Interp) eval(vals map[ssa.Value]c13V, v ssa.Value) c13V {
 				return -n
 			}
 		case token.MUL:
-			if c, ok := a.(c13Cell); ok {
+			switch c := a.(type) {
+			case c13Cell:
 				return (*c.Back)[c.I]
+			case c13StructPtr:
+				return c13StructV{F: append([]c13V(nil), (*c.Back)...)}
 			}
 		}
 		ip.stop("unsupported", "operator %s on %T", x.Op, a)
@@ -952,6 +994,51 @@ func (ip *c13Interp) doCall(vals map[ssa.Value]c13V, x *ssa.Call, depth int) c13
 		if eq, ok := c13BytesEq(args[0], args[1]); ok {
 			return c13Bool(eq)
 		}
+	case key == "slices.IndexFunc", key == "slices.ContainsFunc", key == "slices.Index", key == "slices.Contains":
+		// first index whose element satisfies the predicate (or equals the value), -1 if none
+		var elems []c13V
+		switch sl := args[0].(type) {
+		case c13Slice:
+			elems = (*sl.Back)[sl.Lo:sl.Hi]
+		case c13NilV:
+		default:
+			ip.stop("unsupported", "%s over %T", key, args[0])
+		}
+		found := -1
+		for i, e := range elems {
+			var hit bool
+			if strings.HasSuffix(key, "Func") {
+				pred, ok := args[1].(c13Fn)
+				if !ok || pred.Ext != "" || pred.Fn == nil || pred.Fn.Blocks == nil {
+					ip.stop("unsupported", "%s with a predicate that has no body", key)
+				}
+				r := ip.call(pred.Fn, []c13V{e}, pred.Bind, depth+1)
+				b, isB := c13V(nil), false
+				if len(r) == 1 {
+					b, isB = r[0], true
+				}
+				bv, okB := b.(c13Bool)
+				if !isB || !okB {
+					ip.stop("unsupported", "%s predicate result", key)
+				}
+				hit = bool(bv)
+			} else {
+				x, ok1 := e.(c13Entry)
+				y, ok2 := args[1].(c13Entry)
+				if !ok1 || !ok2 {
+					ip.stop("unsupported", "%s on elements that are not entries", key)
+				}
+				hit = x.Idx == y.Idx
+			}
+			if hit {
+				found = i
+				break
+			}
+		}
+		if strings.HasPrefix(key, "slices.Contains") {
+			return c13Bool(found >= 0)
+		}
+		return c13Int(found)
 	case key == "errors.New", key == "fmt.Errorf", strings.HasPrefix(key, "github.com/pkg/errors."):
 		return c13Err{}
 	case strings.HasSuffix(key, "pkg/errcode.ErrCode).Wrap"):
